@@ -90,9 +90,25 @@ def c03a(chk):
                             dim_ok = an.dominated_by_edge(f, sb, eq_edge, nb) and len(set(roots_)) == 2
             chk.ob("C03.a", "Projection::new/new_unchecked<=equal-dimensions", dim_ok, f.loc(nb), "the projection is built only when source and target have the same number of axes")
             good = []
+            def into_param_(local_):
+                d_ = f.single_def(f.copy_root(local_))
+                if d_ and d_[0] == "call" and callee_is(d_[2]["callee"], "core::convert::Into::into"):
+                    a_ = op_local(d_[2]["args"][0])
+                    return f.copy_root(a_) if a_ is not None else None
+                return None
             for gd in guards:
                 ch_ = gd["it"].chain()
                 zt_ = IT.chain_get(ch_, "zip")
+                c_ = gd["cmp"]
+                if zt_ is None and c_[0] == "Ge" and c_[1] == (1,) and c_[2] is not None and c_[2][:1] == ("at",) and c_[2][2] == (0,):
+                    # pairing by position: for (k, from_k) in from.iter().enumerate() { .. to[k] .. }
+                    src_ = ch_[-1][1]
+                    over_from = sorted(IT.chain_names(ch_)) == ["enumerate", "iter"] and src_ is not None and into_param_(src_[0]) == 1
+                    base_ = c_[2][1]
+                    at_to = base_ is not None and not [e for e in base_[1] if e[0] != "deref"] and into_param_(base_[0]) == 2
+                    if over_from and at_to and dim_ok:
+                        good.append(gd)
+                    continue
                 if zt_ is None or [n_ for n_ in IT.chain_names(ch_) if n_ not in ("zip", "iter", "enumerate")]:
                     continue
                 def src_param_(op):
@@ -790,7 +806,19 @@ def c04c(chk):
             bypass = hdr is None or any(b_ in f.reachable_from(0, avoid={hdr}) for b_ in rets)
             once_ok = spec is not None and is_spec(recv) and any(is_spec(x) for x in stores) and ret and uncond and not bypass
             why_bypass = bypass
-            why_m = "receiver is the running copy=%s, result stored back=%s, the copy is returned=%s, unconditional for every axis=%s, the walk can be bypassed=%s" % (is_spec(recv), any(is_spec(x) for x in stores), ret, uncond, why_bypass)
+            if itM.kind == "closure" and itM.consumer == "fold" and not once_ok:
+                # the running copy is the fold's accumulator: fold(self.clone(), |spectrum, ..| spectrum.marginalize_axis(..)), the fold's value returned
+                recv_acc = itM.acc_path(mt["args"][0]) == ()
+                back = an.call_dest_local(mt) == 0
+                init = itM.term["args"][1] if len(itM.term["args"]) > 1 else None
+                il = op_local(init) if init is not None else None
+                init_clone = il is not None and spec is not None and f.copy_root(il) == spec
+                fold_ret = len(r0) == 1 and r0[0][0] == "call" and r0[0][2] is itM.term
+                once_ok = recv_acc and back and init_clone and fold_ret and uncond and not bypass
+                why_m = "fold form: receiver is the accumulator=%s, its result is the next accumulator=%s, the fold starts from self.clone()=%s, the fold's value is returned=%s, " % (recv_acc, back, init_clone, fold_ret)
+            else:
+                why_m = ""
+            why_m += "receiver is the running copy=%s, result stored back=%s, the copy is returned=%s, unconditional for every axis=%s, the walk can be bypassed=%s" % (is_spec(recv), any(is_spec(x) for x in stores), ret, uncond, why_bypass)
     chk.ob("C04.c", "marginalize_unchecked/axes-in-given-order", order_ok, where, "the axes are walked as given, no re-sorting or reversal (%s)" % why_o)
     chk.ob("C04.c", "marginalize_unchecked/renumber=original-removed", renum_ok, where, "the k-th axis removed is Axis(original.0 - k) with k the enumerate index (%s)" % why_r)
     chk.ob("C04.c", "marginalize_unchecked/one-marginalize_axis-per-axis", once_ok, where, "spectrum = spectrum.marginalize_axis(axis) for every axis, unconditionally (%s)" % why_m)
